@@ -331,6 +331,7 @@ def run(chk, prog):
     chk.floor(R5, 'functions that unbind externals or change the fallback setting', nmut, 2)
 
     # ---- 2d. the index a choice is saved with is fixed when the choice is generated
+    function_name_looked_up_exactly(chk, prog)
     R6 = 'C09.choice-index-fixed-at-generation'
     chk.rule(R6, 'Story::get_current_choices (also called by a refused choose_choice_index) rewrites Choice::index; the '
              'index is part of the save. The rewrite changes nothing only if the index was already right: the function '
@@ -410,3 +411,73 @@ def check_count_pairing(chk, prog, tr, R3):
     chk.decide(R3, chk.key(R3, 'continue_internal', 'dec-needs-inc'), w is None,
                'the decrement is reached only after the increment',
                'recursive_continue_count is decremented on a path that did not increment it', ci.loc(dec[0]))
+
+
+def function_name_looked_up_exactly(chk, prog):
+    RX = 'C09.unknown-function-name-is-refused'
+    chk.rule(RX, 'The container Story::evaluate_function runs is found by an exact lookup of the given name among the '
+             'named content of the root container (HashMap::get on Container::named_content): the value it tests for '
+             'None does not come from a path search (content_at_path / SearchResult), whose answer for a name with an '
+             'unknown tail ("bump.nothing", "0") is the nearest container that does exist - unless the search result\'s '
+             '`approximate` flag is read. With an approximating lookup a call that has to be refused with an error runs '
+             'another function instead, and changes the story.')
+    ef = prog.fn('Story::evaluate_function')
+    if not chk.anchor(RX, 'Story::evaluate_function', ef):
+        return
+    lt = Tracer(prog, transparent=lambda cs: True, use_summaries=False)
+    n = 0
+    for g in prog.with_closures(ef):
+        for bb, t in g.calls():
+            dty = t.get('dty', '')
+            if 'Option<' not in dty or 'Container' not in dty:
+                continue
+            cs = callee_short(t)
+            h = prog.fns.get(callee(t))
+            if h is not None and h.crate == 'bladeink':
+                at = set(lt.prov_local(h, 0))
+                reads_flag = any('approximate' in fields_of_place_names(s) for hh in prog.with_closures(h)
+                                 for _, _, s in hh.stmts())
+                where = h.short
+            elif cs in ('HashMap::get', 'Option::cloned'):
+                at = set(lt.prov(g, t['args'][0])) | {'via:' + cs}
+                reads_flag = False
+                where = 'Story::evaluate_function'
+            else:
+                continue
+            if not ('field:Container::named_content' in at or any('content_at_path' in a or 'SearchResult' in a for a in at)):
+                continue
+            n += 1
+            searched = sorted(a for a in at if 'content_at_path' in a or 'SearchResult' in a)
+            exact = 'field:Container::named_content' in at and 'via:HashMap::get' in at
+            chk.decide(RX, chk.key(RX, where), (exact and not searched) or (bool(searched) and reads_flag),
+                       'the function container comes from an exact lookup by name',
+                       '%s finds the function to run through a path search (%s) without reading SearchResult::approximate: '
+                       'a name whose beginning resolves ("known.unknown", "0") is accepted and the nearest existing '
+                       'container is run - evaluate_function returns Ok and the story has changed, where the call must be '
+                       'refused' % (where, ', '.join(a.split(':', 1)[1] for a in searched[:3])), g.loc(bb))
+    chk.floor(RX, 'function-container lookups in evaluate_function', n, 1)
+
+
+def fields_of_place_names(s):
+    """Names of the fields touched by a statement (read or written)."""
+    out = set()
+
+    def pl_(pl):
+        for pe in (pl or {}).get('p', []):
+            if pe.get('k') == 'field' and pe.get('n'):
+                out.add(pe['n'])
+
+    def op_(o):
+        if isinstance(o, dict) and o.get('k') in ('copy', 'move'):
+            pl_(o['pl'])
+    if s.get('k') == 'assign':
+        pl_(s['pl'])
+        rv = s['rv']
+        for key in ('op', 'a', 'b'):
+            if isinstance(rv.get(key), dict):
+                op_(rv[key])
+        for o in rv.get('ops', []) or []:
+            op_(o)
+        if 'pl' in rv:
+            pl_(rv['pl'])
+    return out
